@@ -10,6 +10,13 @@
 //   - "prefix" mode: the leading validation chain of an Encode-like function is translated to
 //     `accepts : … → Bool`: a `return` whose last result is not `nil` inside an `if` rejects;
 //     translation stops (accepting) at the first statement outside the subset.
+//     Two call shapes are followed when the callee is itself a translated prefix function (same
+//     unit, or another unit through "callmap"): the tail call `return f(args…)` becomes
+//     `f_accepts args…`, and the guard `if err := f(args…); err != nil { return …, err }` becomes
+//     `if !(f_accepts args…) then false else …` (a slice argument `x` is passed as `len_x`).
+//   - unit option "ptr_fields": a struct field of type *S with S listed becomes a nested
+//     structure field (the pointer is assumed non-nil; nil-ness is outside the model).
+//   - a result of type `error` (non-prefix mode) is translated to Bool: `nil` -> true, anything else -> false.
 //   - "table" items: package-level integer array/slice literals -> `def name : Array Int`.
 //   - "consts": package-level integer constants -> `def name : Int`.
 // No loops, no slices, no interfaces.
@@ -48,6 +55,7 @@ type Unit struct {
 	Consts    []string          `json:"consts"`
 	CallMap   map[string]string `json:"callmap"`
 	Imports   []string          `json:"imports"`
+	PtrFields bool              `json:"ptr_fields"` // *S fields of listed structs S become nested structures
 }
 type Spec struct {
 	Units []Unit `json:"units"`
@@ -81,6 +89,8 @@ type tr struct {
 	extra    []string          // extra len_ params discovered (prefix mode)
 	extraSet map[string]bool
 	fn       string
+	nResults int      // number of results of the Go function
+	resTypes []string // per result: "Int" | "Bool" | struct | "Error" (non-prefix mode)
 }
 
 type unsupported struct{ msg string }
@@ -100,6 +110,9 @@ func (g *gen) leanType(e ast.Expr) string {
 		}
 		if x.Name == "bool" {
 			return "Bool"
+		}
+		if x.Name == "error" {
+			return "Error"
 		}
 		if _, ok := g.structs[x.Name]; ok {
 			return x.Name
@@ -466,8 +479,87 @@ func isReject(r *ast.ReturnStmt) bool {
 	return true
 }
 
+// prefixCall: in prefix mode, `f(args…)` where f is a translated prefix function of this unit or a
+// callmap entry: the Lean call of its accepts function ("" if f is not one of those).
+func (t *tr) prefixCall(c *ast.CallExpr) string {
+	name := t.callName(c)
+	ln := ""
+	recvArg := ""
+	if m, ok := t.g.unit.CallMap[name]; ok {
+		ln = m
+	} else if fs, ok := t.g.want[name]; ok && fs.Mode == "prefix" {
+		ln = t.g.leanName(name)
+		if sel, ok := c.Fun.(*ast.SelectorExpr); ok {
+			if fd := t.g.funcs[name]; fd != nil && fd.Recv != nil && len(fd.Recv.List[0].Names) > 0 {
+				recvArg = t.expr(sel.X)
+			}
+		}
+	} else {
+		return ""
+	}
+	args := []string{}
+	if recvArg != "" {
+		args = append(args, recvArg)
+	}
+	for _, a := range c.Args {
+		if id, ok := a.(*ast.Ident); ok {
+			if _, isLen := t.env["len_"+id.Name]; isLen {
+				args = append(args, "len_"+id.Name)
+				continue
+			}
+		}
+		args = append(args, t.expr(a))
+	}
+	return "(" + ln + " " + strings.Join(args, " ") + ")"
+}
+
+// errGuard recognises `if err := f(args…); err != nil { …return …, <non-nil> }` (prefix mode).
+func (t *tr) errGuard(x *ast.IfStmt) string {
+	as, ok := x.Init.(*ast.AssignStmt)
+	if !ok || as.Tok != token.DEFINE || len(as.Lhs) != 1 || len(as.Rhs) != 1 || x.Else != nil {
+		return ""
+	}
+	errId, ok := as.Lhs[0].(*ast.Ident)
+	if !ok {
+		return ""
+	}
+	call, ok := as.Rhs[0].(*ast.CallExpr)
+	if !ok {
+		return ""
+	}
+	be, ok := x.Cond.(*ast.BinaryExpr)
+	if !ok || be.Op != token.NEQ {
+		return ""
+	}
+	l, ok1 := be.X.(*ast.Ident)
+	r, ok2 := be.Y.(*ast.Ident)
+	if !ok1 || !ok2 || l.Name != errId.Name || r.Name != "nil" {
+		return ""
+	}
+	if len(x.Body.List) != 1 {
+		return ""
+	}
+	rs, ok := x.Body.List[0].(*ast.ReturnStmt)
+	if !ok || !isReject(rs) {
+		return ""
+	}
+	return t.prefixCall(call)
+}
+
 func (t *tr) ret(x *ast.ReturnStmt, fin, ind string) string {
 	if t.prefix {
+		if len(x.Results) == 1 {
+			if c, ok := x.Results[0].(*ast.CallExpr); ok {
+				if pc := t.prefixCall(c); pc != "" {
+					return ind + pc + "\n"
+				}
+				// a sole call result: either a tail call (function with several results) or the
+				// construction of the error value itself (fmt.Errorf / errors.New)
+				if n := t.callName(c); t.nResults > 1 || (n != "fmt.Errorf" && n != "errors.New") {
+					t.fail(x, "tail call to %s: not a translated prefix function", n)
+				}
+			}
+		}
 		if isReject(x) {
 			return ind + "false\n"
 		}
@@ -477,7 +569,15 @@ func (t *tr) ret(x *ast.ReturnStmt, fin, ind string) string {
 		return ind + fin + "\n"
 	}
 	rs := []string{}
-	for _, r := range x.Results {
+	for i, r := range x.Results {
+		if i < len(t.resTypes) && t.resTypes[i] == "Error" {
+			if id, ok := r.(*ast.Ident); ok && id.Name == "nil" {
+				rs = append(rs, "true")
+			} else {
+				rs = append(rs, "false")
+			}
+			continue
+		}
 		rs = append(rs, t.expr(r))
 	}
 	if t.ptrRecv {
@@ -599,6 +699,11 @@ func (t *tr) block(stmts []ast.Stmt, fin string, ind string) (out string) {
 		return o + t.block(rest, fin, ind)
 	case *ast.IfStmt:
 		if x.Init != nil {
+			if t.prefix {
+				if pc := t.errGuard(x); pc != "" {
+					return ind + "if (!" + pc + ") then\n" + ind + "  false\n" + ind + "else\n" + t.block(rest, fin, ind+"  ")
+				}
+			}
 			t.fail(s, "if with init statement")
 		}
 		els := elseList(x)
@@ -772,7 +877,7 @@ func (g *gen) translate(fs FuncSpec) string {
 				}
 				t.env["len_"+n.Name] = "Int"
 				params = append(params, "(len_"+n.Name+" : Int)")
-			case "":
+			case "", "Error":
 				if !t.prefix {
 					t.fail(p, "parameter %s of unsupported type", n.Name)
 				}
@@ -780,6 +885,15 @@ func (g *gen) translate(fs FuncSpec) string {
 			default:
 				t.env[n.Name] = ty
 				params = append(params, "("+n.Name+" : "+ty+")")
+			}
+		}
+	}
+	if fd.Type.Results != nil {
+		for _, r := range fd.Type.Results.List {
+			if len(r.Names) == 0 {
+				t.nResults++
+			} else {
+				t.nResults += len(r.Names)
 			}
 		}
 	}
@@ -800,7 +914,12 @@ func (g *gen) translate(fs FuncSpec) string {
 					t.fail(r, "result type")
 				}
 				for i := 0; i < k; i++ {
-					ts = append(ts, ty)
+					t.resTypes = append(t.resTypes, ty)
+					if ty == "Error" {
+						ts = append(ts, "Bool")
+					} else {
+						ts = append(ts, ty)
+					}
 				}
 				for _, n := range r.Names {
 					t.env[n.Name] = ty
@@ -896,7 +1015,10 @@ func (g *gen) load(repo string) {
 								if ty == "" || ty == "Slice" {
 									continue
 								}
-								if _, isPtr := fl.Type.(*ast.StarExpr); isPtr {
+								if _, isPtr := fl.Type.(*ast.StarExpr); isPtr && !(g.unit.PtrFields && listed[ty]) {
+									continue
+								}
+								if ty == "Error" {
 									continue
 								}
 								for _, n := range fl.Names {
